@@ -216,7 +216,9 @@ pub fn c16(tier: &str, seed: u64) -> Vec<Case> {
             3 if r.chance(1, 3) => IpAddr::V6(Ipv6Addr::from(r.below(6) as u128 + 0x0A000000u128)),
             _ => IpAddr::V6(Ipv6Addr::from(r.below(6) as u128 + (0xFE80u128 << 112))) }).collect();
         let ports: Vec<u16> = (0..r.below(5)).map(|_| 8000 + r.below(6) as u16).collect();
-        let name = format!("inst{}", r.below(3));
+        // names that need no escaping, and names that differ only by it (`a.b`, `a\.b`, `a\\.b`): equality and
+        // hashing look at the stored name in the same way
+        let name = match r.below(8) { 0 => "a.b".to_string(), 1 => "a\\.b".to_string(), 2 => "a\\\\.b".to_string(), 3 => "a\\b".to_string(), _ => format!("inst{}", r.below(3)) };
         // the same attribute map inserted in ascending and in descending key order
         let nattr = *r.pick(&[0usize, 1, 2, 5, 16]);
         let attrs: Vec<(String, Option<String>)> = (0..nattr).map(|k| (format!("key{}", k), if k % 3 == 0 { None } else { Some(format!("v{}", k)) })).collect();
@@ -227,7 +229,7 @@ pub fn c16(tier: &str, seed: u64) -> Vec<Case> {
         let (mut ips2, mut ports2) = (ips.clone(), ports.clone());
         ips2.reverse(); ports2.rotate_left(ports.len().min(1));
         if r.chance(1, 4) { ports2.push(9); }
-        let name2 = if r.chance(1, 8) { "other".to_string() } else { name.clone() };
+        let name2 = if r.chance(1, 8) { "other".to_string() } else if name.starts_with('a') && r.chance(1, 2) { r.pick(&["a.b", "a\\.b", "a\\\\.b", "a\\b"]).to_string() } else { name.clone() };
         let b = mk_rev(&ips2, &ports2, &name2);
         let (eq, heq) = (a == b, h(&a) == h(&b));
         let show = |i: &InstanceInformation, nm: &str| {
